@@ -35,6 +35,7 @@ type c10Spec struct {
 	MasterSS   string    `json:"master_semi_sync"`
 	Nodes      []c10Node `json:"nodes"`
 	FailEvery  int       `json:"fail_every_nth_mutating_statement"`
+	StartFails bool      `json:"first_start_replica_on_a_stale_master_fails"` // the turn of a stale master fails at its last statement, once
 }
 
 var (
@@ -61,6 +62,9 @@ func c10Gen(seed int64, idx int) c10Spec {
 	}
 	if r.Intn(3) == 0 {
 		sp.FailEvery = 3 + r.Intn(6)
+	}
+	if sp.Nodes[0].Source == "none" && g%2 == 0 {
+		sp.StartFails, sp.FailEvery = true, 0
 	}
 	return sp
 }
@@ -147,7 +151,12 @@ func c10Run(u *Unit) {
 				}
 			}
 		}
+		var startFailed atomic.Bool
 		w.Fault = func(c *world.StmtCtx) world.FaultAction {
+			if sp.StartFails && c.Class == "start_replica" && stale[c.Host] && startFailed.CompareAndSwap(false, true) {
+				sc.Cover("turn-of-a-stale-master-failed-at-start")
+				return world.FaultAction{Kind: "fail", Errno: 1872}
+			}
 			if sp.FailEvery > 0 && c.Mut {
 				mu.Lock()
 				stmtN++
